@@ -507,10 +507,23 @@ def rule7_worker_record(ctx, fl):
     ctx.floor('C15.7', 14)
 
 
+def rule8_internal_barrier(ctx, fl):
+    ctx.doc('C15.8', 'the start-up barrier of the workers (a global, re-initialised by every myth_init): every field that '
+            'myth_internal_barrier_wait reads is written by myth_internal_barrier_init, so a second lifecycle does not start from the '
+            'arrival counts of the first')
+    m = ctx.view('myth_internal_barrier.c', roots=['myth_internal_barrier_init', 'myth_internal_barrier_wait'],
+                 stops=('real_pthread_mutex_init', 'real_pthread_cond_init', 'real_pthread_mutex_lock', 'real_pthread_mutex_unlock',
+                        'real_pthread_cond_wait', 'real_pthread_cond_broadcast'), flavour=fl)
+    n = lib.init_covers(ctx, 'C15.8', m, 'myth_internal_barrier_init', ['myth_internal_barrier_wait'], 'internal barrier')
+    ctx.ob('C15.8', 'fields read by the barrier wait enumerated', n >= 3, 'n_threads, phase, cur[]', loc='src/myth_internal_barrier.c', detail=str(n))
+    ctx.floor('C15.8', 5)
+
+
 def run(ctx):
     for fl in flavours(ctx):
         ctx.unit = fl
         rule6_progress(ctx, fl)
+        rule8_internal_barrier(ctx, fl)
         rule7_worker_record(ctx, fl)
         rule1_init(ctx, fl)
         rule2_noabort(ctx, fl)
@@ -523,6 +536,8 @@ INITC = 'src/myth_init.c'
 BIND = 'src/myth_bind_worker.c'
 INITH = 'src/myth_init_func.h'
 MUTANTS = [
+    {'name': 'start-up barrier keeps the arrival counts of the previous lifecycle (seed3 C15/m1)', 'expect': 'C15.8',
+     'edits': [('src/myth_internal_barrier.c', "  b->phase = 0;\t\t\t/* 0 : 0 -> n; 1 : n -> 0 */\n  b->cur[0] = b->cur[1] = 0;", "  b->phase = 0;\t\t\t/* 0 : 0 -> n; 1 : n -> 0 */")]},
     {'name': 'exit path forgets to tell the workers to stop (sweep M0520)', 'expect': 'C15.1',
      'edits': [('src/myth_worker_func.h', "  //Set exit flag\n  myth_notify_workers_exit();\n  //Cleanup", "  //Cleanup")]},
     {'name': 'MYTH_NUM_WORKERS read but not parsed (sweep M0324)', 'expect': 'C15.4',
